@@ -9,12 +9,12 @@ Viol(r, j) ==
     Chk("C18-unhandled-exception-instead-of-a-refusal", j.outcome # "raised")
     \cup Chk("C18-no-answer-at-all", j.outcome # "silent")
     \cup Chk("C18-unhandled-exception-answered-by-the-last-resort-handler", ~j.lastresort)
-    \cup Chk("C18-value-the-wire-format-holds-was-refused", Accept(r) => j.outcome # "refused")
-    \cup Chk("C18-value-the-wire-format-cannot-hold-was-accepted", ~Accept(r) => j.outcome # "accepted")
+    \cup Chk("C18-value-the-wire-format-holds-was-refused", (Accept(r) /\ ~Free(r)) => j.outcome # "refused")
+    \cup Chk("C18-value-the-wire-format-cannot-hold-was-accepted", (~Accept(r) /\ ~Free(r)) => j.outcome # "accepted")
     \cup (IF j.outcome # "accepted" THEN {}
           ELSE UNION {Chk("C18-accepted-definition-raises-when-encoded", j.enc[s] # "raised")
                       \cup Chk("C18-accepted-definition-produces-no-update", j.enc[s] # "nothing")
-                      \cup Chk("C18-value-not-carried-as-written", Accept(r) /\ j.enc[s] = "ok" => Contains(j.wire[s], Frag(r, s))) : s \in Sessions})
+                      \cup Chk("C18-value-not-carried-as-written", Accept(r) /\ ~Free(r) /\ j.enc[s] = "ok" => Contains(j.wire[s], Frag(r, s))) : s \in Sessions})
 VARIABLES l, bad
 JInit == l = 1 /\ bad = <<>>
 JNext == /\ l <= Len(Tr) /\ l' = l + 1
